@@ -1,0 +1,66 @@
+/*****************************************************************************
+ *
+ * verifhook.h: event tracing for external verification harnesses.
+ *
+ * Everything here is compiled only with -DALDOR_VERIF.  With the guard off
+ * this header defines nothing and the sources that include it are unchanged.
+ *
+ * When the environment variable ALDOR_VERIF_TRACE names a file, one JSON
+ * object per line is appended to it for each traced event.  The code is
+ * single-threaded, so file order is program order; "seq" makes it explicit.
+ *
+ ****************************************************************************/
+#ifndef _VERIFHOOK_H_
+#define _VERIFHOOK_H_
+
+#ifdef ALDOR_VERIF
+#include <stdio.h>
+#include <stdlib.h>
+
+static FILE *verifTraceFile_(void)
+{
+	static FILE *f = 0;
+	static int   tried = 0;
+	if (!tried) {
+		const char *p = getenv("ALDOR_VERIF_TRACE");
+		tried = 1;
+		if (p && *p) f = fopen(p, "a");
+		if (f) setvbuf(f, 0, _IOLBF, 0);
+	}
+	return f;
+}
+
+static long verifTraceSeq_(void)
+{
+	/* one counter per translation unit would not give a total order, so the
+	 * sequence number lives in the environment-independent line order of
+	 * the file; this per-unit counter is only a local aid. */
+	static long n = 0;
+	return ++n;
+}
+
+/* VERIF_EVENT(("{\"ev\":\"Name\",\"x\":%d}", x)); -- note the double parentheses */
+#define VERIF_EVENT(args) do {						\
+	FILE *vf_ = verifTraceFile_();					\
+	if (vf_) { verifTracePrintf_ args; }				\
+} while (0)
+
+#include <stdarg.h>
+static void verifTracePrintf_(const char *fmt, ...)
+{
+	FILE *f = verifTraceFile_();
+	va_list ap;
+	if (!f) return;
+	va_start(ap, fmt);
+	vfprintf(f, fmt, ap);
+	va_end(ap);
+	fputc('\n', f);
+	fflush(f);
+}
+#define VERIF_TRACING() (verifTraceFile_() != 0)
+#else
+#define VERIF_EVENT(args) do { } while (0)
+#define VERIF_TRACING() 0
+#endif
+
+#endif /* _VERIFHOOK_H_ */
